@@ -8,6 +8,7 @@ the operation list) and every sequence of further crashes during resumes (`Reach
 Power loss (no fsync) is out of scope: a crash loses no completed file-system step.
 -/
 import Dawgs.Proofs.C19
+import Dawgs.Proofs.C19Content
 import Dawgs.Model.C19Scrub
 namespace Dawgs.C19.Props
 open Dawgs.C18 Dawgs.C19
@@ -96,6 +97,29 @@ theorem resume_complete_or_refuse (db : List (Graph P)) (ident : Identity) (hset
     · intro q; rw [applyOps_append, hfin q, hfin0 q, htt]
     · rw [applyOps_append, hfin]; rfl
     · rw [applyOps_append, hfin]; simp [finalGet]
+
+/-- Every entity exactly once, consistent manifest. The directory of an uninterrupted dump, and therefore (by
+`resume_complete_or_refuse`) the directory every completing resume produces after any sequence of crashes, is
+exactly `finalGet t` for a version `t`: the manifest lists `t.done`, the fragments are the committed ones, there is
+no checkpoint, no temp file and nothing else. `t.done` has one entry per graph of the database, in order, with the
+graph's name and counts, and the entry's fragments hold every node and every relationship of the graph exactly
+once, in id order (`HoldsGraph`). Hypotheses: `Setting` and distinct node ids / relationship ids per graph. -/
+theorem completed_resume_holds_every_entity_once (db : List (Graph P)) (ident : Identity) (hset : Setting db ident)
+    (hids : IdsDistinct db) :
+    ∃ t : Ckpt P,
+      (∀ q, (applyOps (dumpOps db ident) ([] : FS P)).get q = finalGet t q) ∧
+      (∀ fs : FS P, Reach db ident fs → (resume db ident fs).outcome = .ok →
+        ∀ q, (applyOps (resume db ident fs).ops fs).get q = finalGet t q) ∧
+      t.done.length = db.length ∧
+      ∀ (j : Nat) (g : Graph P), db[j]? = some g → ∃ d : Done P, t.done[j]? = some d ∧ d.name = g.name ∧
+        (d.nodeCount, d.edgeCount) = counts g ∧ HoldsGraph d.files g := by
+  obtain ⟨_, t, hg, ht, hfin⟩ := dump_states db ident hset
+  obtain ⟨hlen, hall⟩ := terminal_holds_every_entity db ident hset.shard hids t hg ht
+  refine ⟨t, hfin, ?_, hlen, hall⟩
+  intro fs hr hok q
+  rcases resume_complete_or_refuse db ident hset fs hr with ⟨e, he, _⟩ | ⟨_, heq, _, _⟩
+  · rw [he] at hok; cases hok
+  · rw [heq q, hfin q]
 
 /-- The completing branch is not vacuous: in every directory that holds a genuine checkpoint version,
 its fragments and at most the known temp files, resume succeeds. -/
